@@ -161,6 +161,17 @@ Theorem C05_fanin_no_deadlock : forall (m : nat) (ps : list (list nat * nat)) (c
   exists a, FanIn.step s a <> None.
 Proof. exact FanIn.fanin_no_deadlock. Qed.
 
+(* ... every step strictly decreases the number of sends and receives still to come, so every execution is finite, and a run
+   that cannot be extended has sent and received everything *)
+Theorem C05_fanin_terminates : forall (m : nat) (s : FanIn.st) (a : FanIn.act) (s' : FanIn.st),
+  FanIn.Inv m s -> FanIn.step s a = Some s' -> FanIn.measure m s' < FanIn.measure m s.
+Proof. exact FanIn.fanin_step_decreases. Qed.
+
+Theorem C05_fanin_maximal : forall (m : nat) (ps : list (list nat * nat)) (co : list nat) (cp : nat) (l : list FanIn.act) (s : FanIn.st),
+  FanIn.wf_in m ps co -> length ps <= cp -> FanIn.run (FanIn.init ps co cp) l = Some s -> (forall a, FanIn.step s a = None) ->
+  Forall (fun p => FanIn.left p = 0) (FanIn.prods s) /\ forall ch, ch < m -> FanIn.q s ch = 0.
+Proof. exact FanIn.fanin_maximal_run_completes. Qed.
+
 (* ... and with a smaller buffer the statement is false (finding D21): two producers, three shared in-ports, buffer size 1 --
    a reachable state in which nobody is done and nobody can move (replayed on the real library with SCIPIPE_BUFSIZE=1) *)
 Theorem C05_fanin_small_buffer_refuted :
@@ -186,5 +197,7 @@ Print Assumptions C05_with_slots_all_done.
 Print Assumptions C05_with_slots_maximal.
 Print Assumptions C05_with_slots_nonvacuous.
 Print Assumptions C05_fanin_no_deadlock.
+Print Assumptions C05_fanin_terminates.
+Print Assumptions C05_fanin_maximal.
 Print Assumptions C05_fanin_small_buffer_refuted.
 Print Assumptions C05_fanin_nonvacuous.
